@@ -37,7 +37,7 @@ static bool oe_badfmt;             /* a conversion outside the model was used */
 
 /* literal text and names are told apart at COMPILE time (a string literal has array type, a name is a char *), so the
    loop over a literal always runs over a constant string */
-#define OE_ISPTR(s) __builtin_types_compatible_p(__typeof__(s), char *)
+#define OE_ISPTR(s) (__builtin_types_compatible_p(__typeof__(s), char *) || __builtin_types_compatible_p(__typeof__(s), const char *))
 
 static void
 oe_ev(int k, unsigned long long v, const void *p)
